@@ -110,21 +110,30 @@ func pickLen(r *vhlib.Rand, pl int64) int64 {
 var names = []string{"x", "file.bin", "dir name", "", "a/b", "/", "..", ".", "\xff\xfe", "na\xc3\xafve", "<b>"}
 
 func pickPath(r *vhlib.Rand) []string {
-	switch r.Intn(12) {
-	case 0:
+	d := "d" + strconv.Itoa(r.Intn(3))
+	switch k := r.Intn(100); {
+	case k < 3:
 		return []string{}
-	case 1:
+	case k < 5:
 		return []string{""}
-	case 2:
+	case k < 7:
 		return []string{"a", "", "b"}
-	case 3:
+	case k < 9:
 		return []string{"..", "x"}
-	case 4:
-		return []string{"d" + strconv.Itoa(r.Intn(3)), "sub", "f" + strconv.Itoa(r.Intn(5)) + ".bin"}
-	case 5:
+	case k < 10:
+		return []string{"."}
+	case k < 11:
+		return []string{"a/b"}
+	case k < 36:
+		return []string{d, "sub", "f" + strconv.Itoa(r.Intn(5)) + ".bin"}
+	case k < 41: // a directory of the paths above
+		return []string{d, "sub"}
+	case k < 45:
+		return []string{d}
+	case k < 53:
 		return []string{".pad", strconv.Itoa(r.Intn(9999))}
 	default:
-		return []string{"f" + strconv.Itoa(r.Intn(6))}
+		return []string{"f" + strconv.Itoa(r.Intn(40))}
 	}
 }
 
